@@ -37,6 +37,9 @@ PALETTE = {
     "B": {"edition": "2015", "targets": ["lib", "bin", "custom-build"], "dep": "ext"},
     "C": {"edition": "2018", "targets": ["bin", "example", "test"], "dep": "next"},
     "D": {"edition": "2021", "targets": ["lib", "bench"], "dep": "ext"},
+    # a binary whose root file (ws/common/main.rs) is shared with other packages
+    "E": {"edition": "2018", "targets": ["lib", "shared"], "dep": "none"},
+    "F": {"edition": "2021", "targets": ["shared"], "dep": "none"},
 }
 
 
@@ -54,7 +57,8 @@ def workspace(types, virtual, ext_ed, ext_dep):
             j = (i + 1) % n
             deps.append({"name": f"m{j + 1}", "dir": ws + [f"m{j + 1}"]})
         pk.append({"name": f"m{i + 1}", "dir": d, "member": True, "edition": spec["edition"],
-                   "targets": [{"kind": k, "path": d + TARGET_FILES[k].split("/")}
+                   "targets": [{"kind": k, "path": (ws + ["common", "main.rs"]) if k == "shared"
+                                else d + TARGET_FILES[k].split("/")}
                                for k in spec["targets"]],
                    "deps": deps})
     if not virtual:
@@ -73,8 +77,10 @@ def workspace(types, virtual, ext_ed, ext_dep):
 
 def universe():
     out = []
-    for n in (1, 2, 3):
-        for types in itertools.product("ABCD", repeat=n):
+    combos = [t for n in (1, 2, 3) for t in itertools.product("ABCD", repeat=n)]
+    combos += [tuple(x) for x in ("E", "F", "EF", "FE", "EE", "FF", "EFA", "AEF", "EFC", "FBE")]
+    for types in combos:
+        for _once in (0,):
             for virtual in (True, False):
                 for ext_ed, ext_dep in (("2021", False), ("2018", True)):
                     if not any(PALETTE[t]["dep"] == "ext" for t in types) and ext_dep:
@@ -101,6 +107,10 @@ def manifest(p, sc, base):
     if p["name"] == "rootpkg" or not (p["dir"] == sc["ws_root"]):
         lines += ["[package]", f'name = "{p["name"]}"', 'version = "0.1.0"',
                   f'edition = "{p["edition"]}"', "publish = false", ""]
+    for t in p["targets"]:
+        if t["kind"] == "shared":
+            rel = os.path.relpath(base.joinpath(*t["path"]), d)
+            lines += ["[[bin]]", f'name = "{p["name"]}_shared"', f'path = "{rel}"', ""]
     dev = [x for x in p["deps"] if p["name"] == "ext2"]
     normal = [x for x in p["deps"] if p["name"] != "ext2"]
     for title, ds in (("[dependencies]", normal), ("[dev-dependencies]", dev)):
